@@ -295,15 +295,18 @@ func (rw *ReadWriter) Initialize() error {
 	}
 	msgName := msgGoToDef(rw.elemType.Name()[len("Message"):])
 
+	sizeNormal := 0
+	sizeExtended := 0
+
 	// collect message fields
 	for i := 0; i < rw.elemType.NumField(); i++ {
 		field := rw.elemType.Field(i)
-		arrayLength := byte(0)
+		arrayLength := 0
 		goType := field.Type
 
 		// array
 		if goType.Kind() == reflect.Array {
-			arrayLength = byte(goType.Len())
+			arrayLength = goType.Len()
 			goType = goType.Elem()
 		}
 
@@ -352,7 +355,7 @@ func (rw *ReadWriter) Initialize() error {
 					if err != nil {
 						return fmt.Errorf("string has invalid length: %v", tagLen)
 					}
-					arrayLength = byte(slen)
+					arrayLength = slen
 				}
 			}
 		}
@@ -360,12 +363,14 @@ func (rw *ReadWriter) Initialize() error {
 		// extension
 		isExtension := (field.Tag.Get("mavext") == "true")
 
+		if arrayLength < 0 || arrayLength > 255 {
+			return fmt.Errorf("invalid array length: %v", arrayLength)
+		}
+
 		// size
-		var size byte
+		size := int(fieldTypeSizes[dialectType])
 		if arrayLength > 0 {
-			size = fieldTypeSizes[dialectType] * arrayLength
-		} else {
-			size = fieldTypeSizes[dialectType]
+			size *= arrayLength
 		}
 
 		rw.fields[i] = &decEncoderField{
@@ -377,16 +382,23 @@ func (rw *ReadWriter) Initialize() error {
 				}
 				return fieldGoToDef(field.Name)
 			}(),
-			arrayLength: arrayLength,
+			arrayLength: byte(arrayLength),
 			index:       i,
 			isExtension: isExtension,
 		}
 
-		rw.sizeExtended += size
+		sizeExtended += size
 		if !isExtension {
-			rw.sizeNormal += size
+			sizeNormal += size
 		}
 	}
+
+	if sizeExtended > 255 {
+		return fmt.Errorf("message is too big: %d bytes, maximum is 255", sizeExtended)
+	}
+
+	rw.sizeNormal = byte(sizeNormal)
+	rw.sizeExtended = byte(sizeExtended)
 
 	// reorder fields as described in
 	// https://mavlink.io/en/guide/serialization.html#field_reordering
